@@ -626,8 +626,8 @@ def tie_defaults(ctx: Ctx) -> None:
             construct = default_construct(enc, src)
             if verdict == "default-free-name":
                 free = {n.id for n in ast.walk(ast.parse(real, mode="eval")) if isinstance(n, ast.Name)}
-                expected = {"unary-not": r"not\d+", "non-finite-float": r"inf|nan"}.get(construct)
-                if expected is None or not all(re.fullmatch(expected, f) or re.fullmatch(r"not\d+|inf|nan", f) for f in free):
+                expected = {"unary-not": r"not(\d+|inf|nan)", "non-finite-float": r"inf|nan"}.get(construct)
+                if expected is None or not all(re.fullmatch(expected, f) or re.fullmatch(r"not(\d+|inf|nan)|inf|nan", f) for f in free):
                     construct = "other"
             observed = {"class": "default-mis-rendered", "construct": construct, "effect": verdict}
             key = json_key({k: observed[k] for k in ("class", "construct")})
